@@ -9,6 +9,7 @@ import (
 	"os"
 	"os/exec"
 	"path/filepath"
+	"regexp"
 	"runtime"
 	"sort"
 	"strconv"
@@ -27,8 +28,17 @@ func init() {
 
 // stdPackages parses the package clauses below goroot/src: import path -> declared name.
 func stdPackages(goroot string) map[string]string {
+	return packagesBelow(filepath.Join(goroot, "src"))
+}
+
+// vendoredStdPackages: the packages vendored into the standard library (GOROOT/src/vendor), by
+// their unvendored import path.
+func vendoredStdPackages(goroot string) map[string]string {
+	return packagesBelow(filepath.Join(goroot, "src", "vendor"))
+}
+
+func packagesBelow(src string) map[string]string {
 	out := map[string]string{}
-	src := filepath.Join(goroot, "src")
 	if real, err := filepath.EvalSymlinks(src); err == nil {
 		src = real
 	}
@@ -38,6 +48,9 @@ func stdPackages(goroot string) map[string]string {
 		}
 		rel, _ := filepath.Rel(src, p)
 		base := filepath.Base(p)
+		if rel == "." {
+			return nil
+		}
 		if rel == "cmd" || base == "vendor" || base == "testdata" || strings.HasPrefix(base, "_") || (strings.HasPrefix(base, ".") && rel != ".") {
 			return filepath.SkipDir
 		}
@@ -260,7 +273,7 @@ func runC18(r *ev.Recorder) {
 		"(a) alone under 16 scenarios (a non-ASCII PackagePrefix, a non-ASCII alias, render / Anon of the path / render again, Anon / render / reference; next to a third-party import, aliased next to one, after two third-party packages of the same name, plain, PackagePrefix, ImportAlias = last path element, ImportAlias = real name, truthful ImportName, Anon then reference, Anon then reference inside a Dict value, in a File whose own package path ends in the package path, in a File whose own path is the last element); " +
 		"(b) every ordered pair of packages, plain, with prefix (ASCII and non-ASCII), and with the second aliased to the name of the first (pairs that share a declared or guessed name - thorough: all pairs - also inside a Dict after Anon, with aliases, Anon then reference, and next to a third-party import); every ordered triple of packages sharing a declared name; " +
 		"oracle on the parsed output: the spec of the path has no alias and the qualifier is the declared name, or has an alias equal to the qualifier; names unique; go/types resolves every reference against a fabricated importer declaring the parsed names. " +
-		"(c) the repository's gennames tool is built and run (-standard -novendor) and every entry of the table it writes must equal the parsed name of that directory. " +
+		"(c) the repository's gennames tool is built and run under a matrix of its flags (-standard; -novendor on/off; 6 filters incl. one that matches only vendored packages and one that matches nothing; default and explicit -package/-name): every entry equals the name parsed from that directory (GOROOT/src/vendor for vendored ones), matches the filter, is no main package; filtered tables are exactly the filter's selection of the unfiltered one; -novendor removes exactly the vendored entries. " +
 		"distinct_nontrivial = distinct (path set, scenario) cases in which some package's declared name differs from its last path element or two packages compete for a name"
 	r.Assume = []string{"package names are read from the package clauses in GOROOT/src (files tagged ignore and package main excluded; majority name per directory)",
 		"thorough also covers /opt/veriftools/go1.26.8/src"}
@@ -352,41 +365,170 @@ func runC18(r *ev.Recorder) {
 			}
 		}
 	}
-	// (c) gennames
+	// (c) gennames: the tool is run under a matrix of its flags; every table must be right entry by
+	// entry, and the tables must be consistent with each other
 	if gn := os.Getenv("VERIF_GENNAMES"); gn != "" {
-		names := stdPackages(runtime.GOROOT())
-		out := filepath.Join(os.Getenv("VERIF_SCRATCH"), "gennames-out.go")
-		cmd := exec.Command(gn, "-standard", "-novendor", "-output", out, "-package", "x", "-name", "Names")
-		cmd.Env = append(os.Environ(), "GOROOT="+runtime.GOROOT())
-		var b []byte
-		var err error
-		r.External(func() { b, err = cmd.CombinedOutput() })
-		if err != nil {
-			r.Violate(ev.Violation{Signature: "c18:gennames-fails", What: "gennames -standard -novendor fails: " + err.Error(), Case: ev.JSON(c18Case{Scenario: "gennames", Desc: "gennames"}), Detail: string(b)})
-		} else {
-			table, err := parseNameTable(out)
-			if err != nil || len(table) < 100 {
-				r.Violate(ev.Violation{Signature: "c18:gennames-output", What: fmt.Sprintf("gennames output unusable: %v, %d entries", err, len(table)), Case: ev.JSON(c18Case{Scenario: "gennames", Desc: "gennames"})})
-			}
-			unknown := 0
-			for p, n := range table {
-				r.Eval(1)
-				real, ok := names[p]
-				if !ok {
-					unknown++
-					continue
-				}
-				if real != lastElem(p) {
-					r.Distinct("gennames:" + p)
-				}
-				if real != n {
-					r.Violate(ev.Violation{Signature: "c18:gennames-entry", What: fmt.Sprintf("gennames maps %q to %q, the package declares %q", p, n, real), Case: ev.JSON(c18Case{Scenario: "gennames", Paths: []string{p}, Desc: "gennames"})})
-				}
-			}
-			r.Note("gennames", map[string]any{"entries": len(table), "entries_for_directories_not_found": unknown})
-		}
+		c18Gennames(r, gn)
 	} else {
 		r.Note("gennames", "skipped: run through run.sh")
+	}
+}
+
+type c18Table struct {
+	pkg, varName string
+	entries      map[string]string
+}
+
+// parseGennames reads the file gennames wrote: package clause, variable name, entries.
+func parseGennames(file string) (*c18Table, error) {
+	fset := token.NewFileSet()
+	f, err := parser.ParseFile(fset, file, nil, 0)
+	if err != nil {
+		return nil, err
+	}
+	t := &c18Table{pkg: f.Name.Name}
+	for _, d := range f.Decls {
+		if gd, ok := d.(*ast.GenDecl); ok && gd.Tok == token.VAR {
+			for _, sp := range gd.Specs {
+				if vs, ok := sp.(*ast.ValueSpec); ok && len(vs.Names) == 1 {
+					t.varName = vs.Names[0].Name
+				}
+			}
+		}
+	}
+	t.entries, err = parseNameTable(file)
+	return t, err
+}
+
+func c18Gennames(r *ev.Recorder, gn string) {
+	goroot := runtime.GOROOT()
+	plain := stdPackages(goroot)
+	vendored := vendoredStdPackages(goroot)
+	filters := []string{"", "rand$", "^(crypto|go)/", "vendor", "^[^/]*$", "x{3}nothing"}
+	type key struct {
+		novendor bool
+		filter   string
+	}
+	tables := map[key]*c18Table{}
+	fail := func(sig, what, detail string) {
+		r.Violate(ev.Violation{Signature: "c18:gennames-" + sig, What: what, Case: ev.JSON(c18Case{Scenario: "gennames", Desc: what}), Detail: detail})
+	}
+	run := 0
+	for _, novendor := range []bool{true, false} {
+		for _, filter := range filters {
+			run++
+			out := filepath.Join(os.Getenv("VERIF_SCRATCH"), fmt.Sprintf("gennames-out-%d.go", run))
+			pkg, name := "x", "Names"
+			args := []string{"-standard", "-output", out}
+			if run%2 == 0 {
+				pkg, name = "main", "PackageNames" // the defaults
+			} else {
+				args = append(args, "-package", pkg, "-name", name)
+			}
+			if novendor {
+				args = append(args, "-novendor")
+			}
+			if filter != "" {
+				args = append(args, "-filter", filter)
+			}
+			cmd := exec.Command(gn, args...)
+			cmd.Env = append(os.Environ(), "GOROOT="+goroot)
+			var b []byte
+			var err error
+			r.External(func() { b, err = cmd.CombinedOutput() })
+			desc := fmt.Sprintf("gennames %s", strings.Join(args[:1], " ")+" "+strings.Join(args[3:], " "))
+			r.Eval(1)
+			if err != nil {
+				fail("fails", desc+" fails: "+err.Error(), string(b))
+				continue
+			}
+			t, err := parseGennames(out)
+			if err != nil {
+				fail("output", fmt.Sprintf("%s: output unusable: %v", desc, err), "")
+				continue
+			}
+			tables[key{novendor, filter}] = t
+			if t.pkg != pkg || t.varName != name {
+				fail("header", fmt.Sprintf("%s: file declares package %s, var %s; want %s, %s", desc, t.pkg, t.varName, pkg, name), "")
+			}
+			re := regexp.MustCompile(filter)
+			for p, n := range t.entries {
+				r.Eval(1)
+				real, isPlain := plain[p]
+				vreal, isVendored := vendored[p]
+				switch {
+				case isPlain && real != n:
+					fail("entry", fmt.Sprintf("%s maps %q to %q, the package declares %q", desc, p, n, real), "")
+				case !isPlain && isVendored && vreal != n:
+					fail("entry", fmt.Sprintf("%s maps vendored %q to %q, the package declares %q", desc, p, n, vreal), "")
+				case !isPlain && isVendored && novendor:
+					fail("novendor", fmt.Sprintf("%s lists %q, which exists only below vendor/", desc, p), "")
+				case n == "main" || n == "":
+					fail("entry", fmt.Sprintf("%s maps %q to the name %q", desc, p, n), "")
+				}
+				orig := p
+				if !isPlain && isVendored {
+					orig = "vendor/" + p
+				}
+				if !re.MatchString(orig) {
+					fail("filter", fmt.Sprintf("%s lists %q, which the filter does not match", desc, p), "")
+				}
+				if isPlain && real != lastElem(p) || isVendored {
+					r.Distinct("gennames:" + filter + p)
+				}
+			}
+		}
+	}
+	// consistency between the tables: a filter only removes entries; -novendor removes exactly the
+	// entries that exist only below vendor/
+	for _, novendor := range []bool{true, false} {
+		full := tables[key{novendor, ""}]
+		if full == nil {
+			continue
+		}
+		if len(full.entries) < 100 {
+			fail("output", fmt.Sprintf("gennames -standard (novendor=%v) lists only %d packages", novendor, len(full.entries)), "")
+		}
+		for _, filter := range filters[1:] {
+			t := tables[key{novendor, filter}]
+			if t == nil {
+				continue
+			}
+			re := regexp.MustCompile(filter)
+			for p, n := range full.entries {
+				orig := p
+				if _, isPlain := plain[p]; !isPlain {
+					if _, isVendored := vendored[p]; isVendored {
+						orig = "vendor/" + p
+					}
+				}
+				if _, have := t.entries[p]; re.MatchString(orig) && !have {
+					fail("filter-drops", fmt.Sprintf("gennames -filter %q (novendor=%v) lacks %q (%s), which the filter matches and the unfiltered table has", filter, novendor, p, n), "")
+				}
+			}
+			for p := range t.entries {
+				if _, ok := full.entries[p]; !ok {
+					fail("filter-adds", fmt.Sprintf("gennames -filter %q (novendor=%v) lists %q, which the unfiltered table lacks", filter, novendor, p), "")
+				}
+			}
+		}
+	}
+	if nv, v := tables[key{true, ""}], tables[key{false, ""}]; nv != nil && v != nil {
+		for p := range nv.entries {
+			if _, ok := v.entries[p]; !ok {
+				fail("novendor", fmt.Sprintf("%q is listed with -novendor but not without", p), "")
+			}
+		}
+		nvend := 0
+		for p := range v.entries {
+			if _, ok := nv.entries[p]; !ok {
+				nvend++
+				if _, isVendored := vendored[p]; !isVendored {
+					fail("novendor", fmt.Sprintf("-novendor drops %q, which is no vendored package", p), "")
+				}
+			}
+		}
+		r.Note("gennames", map[string]any{"runs": run, "entries": len(nv.entries), "entries_with_vendored": len(v.entries), "vendored_entries": nvend})
 	}
 }
 
